@@ -261,6 +261,32 @@ def case_array_io(col, p):
             if not (np.isnan(back3.flat[0]) and back3.shape == shape and
                     all(_same_float(float(back3.flat[i]), _expected_value(float(data.flat[i]), prec)) for i in range(1, data.size))):
                 col.violation('C14:array_to_file:masked_as_nan', info, {'got': back3})
+        # several arrays through ONE open file object (both functions document "file name or open file object"): every ordered pair and the
+        # triple of (this shape, a vector, a matrix), written one after the other and read back by successive calls on one handle
+        others = [(3,), (2, 2)]
+        seqs = [[shape, o] for o in others] + [[o, shape] for o in others] + [[shape, others[0], others[1]], [shape, shape]]
+        for seq in seqs:
+            arrs = []
+            for q, sh in enumerate(seq):
+                a = _dense(sh) + q
+                arrs.append(a)
+            fn2 = os.path.join(tmp, 'seq.txt')
+            try:
+                with open(fn2, 'w') as fid:
+                    for q, a in enumerate(arrs):
+                        Numerics.array_to_file(a, fid, precision=17, comment_lines=['array %d' % q])
+                backs = []
+                with open(fn2, 'r') as fid:
+                    for q in range(len(arrs)):
+                        backs.append(Numerics.array_from_file(fid, return_comments=True))
+                col.tick(transitions=2 * len(arrs))
+                n += 1
+                for q, (a, (b, rc)) in enumerate(zip(arrs, backs)):
+                    if b.shape != a.shape or not np.array_equal(b, a) or list(rc) != ['array %d' % q]:
+                        col.violation('C14:array_roundtrip:sequence_in_one_file', dict(p, sequence=[list(x) for x in seq], position=q), {'got': b, 'exp': a, 'comments': list(rc)})
+                        break
+            except Exception as e:
+                col.violation('C14:array_roundtrip:sequence_in_one_file', dict(p, sequence=[list(x) for x in seq]), '%s: %s' % (type(e).__name__, str(e)[:200]))
         col.tick(states=n, traces=n)
     finally:
         shutil.rmtree(tmp, ignore_errors=True)
